@@ -131,7 +131,8 @@ PROPS = {
                 "JSON number texts of 1..2000 digits with fractions, exponents (150000 +-1, up to 400000), leading '-', and malformed variants (leading '+', trailing '.', leading zero, "
                 "dangling 'e', '..', '_', leading '.') through plain Deserialize, json_num and json_num_option, as numbers and as strings; serde token streams of every integer width and "
                 "f32/f64 (NaN, inf, subnormal, -0.0, random bits) and values of other types (bool, unit, char, sequence, map: error value expected) via IntoDeserializer. Expected results: Display model, parser model, JSON-number recogniser, scale limit from build.rs, "
-                "IEEE bit semantics.",
+                "IEEE bit semantics. Configuration stage: the harness (and the library) rebuilt with RUST_BIGDECIMAL_SERDE_SCALE_LIMIT in {0 = no limit, 1, 7} (thorough: {0, 1, 2, 7, 1000}) and the json_num adapters "
+                "run on numbers whose scales sit at that limit, one beyond it, at the default limit and far beyond, the limit travelling with every line.",
         "trusted_base": TB_COMMON + ["serde / serde_json plumbing and serde_json's number grammar (modelled by a recogniser, tied by the malformed-number stream)"],
         "assumptions": ASSUME_COMMON,
     },
@@ -224,6 +225,8 @@ def c20_configs(tier, seed):
 def extra_stage(prop, tier, seed, chk, tally):
     """C20: rebuild the harness under other RUST_BIGDECIMAL_* settings and run the C20 cases again"""
     import os, subprocess
+    if prop == "C17":
+        return c17_limit_stage(tier, seed, chk, tally)
     if prop != "C20":
         return {}, []
     violations = []
@@ -256,6 +259,36 @@ def extra_stage(prop, tier, seed, chk, tally):
         for e in errs:
             violations.append(("configuration", None, "%s: %s" % (want, e)))
         built.append({"config": want, "reported": got, "evaluations": tally.evaluations - before})
+        os.remove(mine)
+    return {"configurations": built}, violations
+
+
+def c17_limit_stage(tier, seed, chk, tally):
+    """C17: "exponents beyond the CONFIGURED limit are errors" - rebuild the harness (and with it the library)
+    under other RUST_BIGDECIMAL_SERDE_SCALE_LIMIT settings (0 = no limit) and run the json_num cases around that limit"""
+    import os, subprocess, shutil
+    violations = []
+    built = []
+    tdir = os.path.join(chk.HARNESS, "target-cfg")
+    for lim in ([0, 1, 7] if tier != "thorough" else [0, 1, 2, 7, 1000]):
+        env = dict(os.environ, CARGO_NET_OFFLINE="true", RUST_BIGDECIMAL_SERDE_SCALE_LIMIT=str(lim))
+        with chk.Lock("cargo"):
+            p = subprocess.run(["cargo", "build", "--release", "--offline", "--target-dir", tdir], cwd=chk.HARNESS, env=env,
+                               stdout=subprocess.PIPE, stderr=subprocess.STDOUT, text=True)
+            hbin = os.path.join(tdir, "release", "harness")
+            if p.returncode != 0:
+                violations.append(("configuration", None, "harness does not build with scale limit %d: %s" % (lim, p.stdout[-300:])))
+                continue
+            mine = os.path.join(tdir, "harness-serdelimit_%d" % lim)
+            shutil.copy(hbin, mine)
+        got = subprocess.run([mine, "serdelimit"], stdout=subprocess.PIPE, text=True).stdout.strip()
+        if got != str(lim):
+            violations.append(("configuration", None, "built with scale limit %d but the harness reports %s" % (lim, got)))
+        before = tally.evaluations
+        errs = chk.stage_explore("C17", tier, seed, tally, hbin=mine, corpus=False)
+        for e in errs:
+            violations.append(("configuration", None, "scale limit %d: %s" % (lim, e)))
+        built.append({"config": "serde scale limit %d" % lim, "reported": got, "evaluations": tally.evaluations - before})
         os.remove(mine)
     return {"configurations": built}, violations
 
